@@ -1324,6 +1324,14 @@ func capRun(e *Env) {
 				l.SendLine(":irc.sim CAP me ACK :-" + cp)
 				enabled[cp] = false
 				e.S.Count("probe.later-ack-disables-capability")
+				// an acknowledgement that takes a capability away starts nothing,
+				// whatever the capability: the answer is CAP END
+				ln, ok := nextLine()
+				e.Check()
+				if !ok || ln != "CAP END" {
+					fail("end-after-ack", "after the later ACK of -%s (an ACK that does not start SASL) want CAP END, got %q", cp, ln)
+					return
+				}
 				if g.S.Choose(2) == 0 {
 					// ... and enables it again, alone or along with what is held anyway
 					again := cp
@@ -1333,6 +1341,38 @@ func capRun(e *Env) {
 					l.SendLine(":irc.sim CAP me ACK :" + again)
 					enabled[cp] = true
 					e.S.Count("probe.later-ack-enables-capability-again")
+					ln, ok := nextLine()
+					e.Check()
+					if saslKind != 0 && strings.Contains(" "+again+" ", " sasl ") {
+						// this one does acknowledge sasl: the exchange starts over, and
+						// the server lets it fail
+						if !ok || ln != "AUTHENTICATE "+wantMech {
+							fail("sasl-start", "after a later ACK containing sasl want AUTHENTICATE %s, got %q", wantMech, ln)
+							return
+						}
+						l.SendLine(":irc.sim 904 me :SASL authentication failed")
+						ln, ok = nextLine()
+						e.Check()
+					}
+					if !ok || ln != "CAP END" {
+						fail("end-after-ack", "after the later ACK of %q want CAP END in the end, got %q", clip(again), ln)
+						return
+					}
+				} else if cp == "sasl" && saslKind != 0 && saslAsked && g.S.Choose(2) == 0 {
+					// sasl is no longer acknowledged and the data of the earlier exchange
+					// has been asked for and given: a server asking again must get
+					// nothing.  (When the earlier exchange was left unfinished the
+					// response is still armed from an acknowledgement that did happen;
+					// the property does not say that a later "-sasl" disarms it.)
+					e.S.Count("fault.unprompted-authenticate-after-sasl-was-taken-away")
+					l.SendLine("AUTHENTICATE +")
+					simrt.Settle(10 * time.Second)
+					e.Check()
+					if l.HasLine() {
+						extra, _ := nextLine()
+						fail("sasl-unacknowledged", "the server's latest acknowledgement took sasl away, yet the client answered AUTHENTICATE + with %q", extra)
+						return
+					}
 				}
 			}
 			simrt.Settle(20 * time.Second)
@@ -1422,7 +1462,10 @@ func logRun(e *Env) {
 	if g.Pct(10) {
 		pw = "PASS " + pw
 	}
-	fault := g.W(4, 2, 2, 2, 2, 1) // none, write error at PASS, lost during registration, dial failure first, handler panic, EOF at once
+	fault := g.W(4, 2, 2, 2, 2, 1, 2) // none, write error at PASS, lost during registration, dial failure first, handler panic, EOF at once, TLS handshake fails first
+	// a connection that never comes up has a password too: the attempt may fail
+	// on the library's own dial path as well as behind a proxy
+	direct := g.Pct(30)
 	capNeg, track := g.Bool(), g.Bool()
 	leaks := 0
 	var leak string
@@ -1438,7 +1481,7 @@ func logRun(e *Env) {
 			masked++
 		}
 	}
-	e.Notef("password=%q fault=%s capneg=%v track=%v", pw, []string{"none", "write error at the PASS line", "connection lost during registration", "dial failure, then retry", "handler panics after REGISTER", "EOF at once"}[fault], capNeg, track)
+	e.Notef("password=%q fault=%s capneg=%v track=%v direct-dial=%v", pw, []string{"none", "write error at the PASS line", "connection lost during registration", "dial failure, then retry", "handler panics after REGISTER", "EOF at once", "TLS handshake fails, then retry in plain"}[fault], capNeg, track, direct)
 	cfg := client.NewConfig("me", "ident", "name")
 	cfg.Pass = pw
 	cfg.EnableCapabilityNegotiation = capNeg
@@ -1450,6 +1493,13 @@ func logRun(e *Env) {
 	}
 	cfg.Server = "irc.sim"
 	cfg.Proxy = "sim://p"
+	if direct {
+		cfg.Proxy = ""
+	}
+	if fault == 6 {
+		cfg.SSL = true
+		cfg.SSLConfig = &tls.Config{InsecureSkipVerify: true}
+	}
 	cfg.Flood = g.Bool()
 	cfg.PingFreq = 0
 	c := client.Client(cfg)
@@ -1478,6 +1528,11 @@ func logRun(e *Env) {
 	}
 	sawPass := false
 	e.OnDial = func(l *simnet.Link) {
+		if fault == 6 && l.ID == 1 {
+			// nothing that speaks TLS behind the socket
+			l.CloseByServer()
+			return
+		}
 		e.S.Spawn(fmt.Sprintf("server%d", l.ID), func() {
 			for {
 				ln, ok := l.RecvLineFor(time.Hour)
@@ -1510,6 +1565,14 @@ func logRun(e *Env) {
 			e.Violation("harness", "dial failure did not fail Connect")
 			return
 		}
+	}
+	if fault == 6 {
+		e.S.Count("fault.tls-handshake-fails")
+		if err := c.Connect(); err == nil {
+			e.Violation("harness", "Connect returned nil although the TLS handshake cannot have succeeded")
+			return
+		}
+		c.Config().SSL = false
 	}
 	if scrub != 0 {
 		// the password is handed to the library at Connect; an application may
